@@ -67,6 +67,21 @@ def iter_cases(tier, rng):
             form = "local" if n % 2 else "threads"
             cases.append(("i%d" % n, "(case i%d retire %s (iter %d) %s (ops %s))" % (n, form, 4, p, " ".join(ch)),
                           {"kind": "iter", "pos": p.split()[0].strip("(") + "/" + gen.opname(p.split()[1]) if p != "main" else "main", "depth": len(ch)}))
+    # the stream is ended from the SIDE (the other input satisfies the cutter) while an operator between the iterator and the
+    # two-input operator is still holding items back: nothing more is pulled
+    PRE = ["(skip 2)", "(skip big)", "(element_at 3)", "(skip_while (lt 2))", "(filter (const #f))", "(ignore_elements)", "(take_last 2)", "(last)",
+           "(skip_last 2)", "(map (add 1))", "(skip 1) (map (add 1))", "(buffer_with_count 3)", "(distinct)", "(scan add 0)"]
+    for pre in PRE:
+        for o in ("merge", "zip", "(combine_latest add)", "with_latest_from", "take_until", "sample"):
+            for sd in ("a", "b"):
+                for other in ("(n 7)", "(n 7) (n 8)", "(n 7) c", "c", ""):
+                    for cut in ("(take 1)", "(first)", "(take_while (lt 0))", "(contains 7)"):
+                        if tier == "quick" and rng.below(4):
+                            continue
+                        n += 1
+                        form = "local" if n % 2 else "threads"
+                        cases.append(("i%d" % n, "(case i%d retire %s (iter 5) (%s %s (cold %s)) (ops %s) (pre %s))" % (n, form, sd, o, other, cut, pre),
+                                      {"kind": "iter", "pos": "pre/" + sd + "/" + gen.opname(o), "depth": 1}))
     return cases
 
 
